@@ -382,6 +382,10 @@ def main_check(spec, argv):
             per_config[cfgname] = {"cases": res.cases - cases_before}
         for hook in spec.get("post", []):
             hook(spec, workdir, tier, seed, res, per_config)
+        fz = fuzz_stage(spec, workdir, tier, seed, res, args.jobs)
+        if fz:
+            spec["_fuzz"] = fz
+            per_config["fuzz"] = {"cases": fz["executions"]}
         if os.environ.get("VERIF_NO_GCOV") != "1" and os.path.realpath(REPO) == "/repo":
             spec["_reach"] = gcov_reach(spec, workdir, seed, args.jobs)
     except Inconclusive as e:
@@ -469,9 +473,126 @@ def main_check(spec, argv):
     print("RESULT property=%s tier=%s held on %d cases in %d units (%d distinct signatures), configs=%s, %.1fs" % (
         prop, tier, res.cases, res.units, len(res.sigs), ",".join(configs), wall))
     if not args.keep:
-        for cfgname in list(configs) + ["gcov"]:
+        for cfgname in list(configs) + ["gcov", "fuzz"]:
             shutil.rmtree(os.path.join(workdir, cfgname), ignore_errors=True)
     return 0
+
+
+FUZZ_FLAGS = ["-O1", "-g", "-fno-omit-frame-pointer", "-fsanitize=fuzzer,address,undefined",
+              "-fno-sanitize-recover=all", "-fno-sanitize=nonnull-attribute,returns-nonnull-attribute"]
+
+
+def fuzz_stage(spec, workdir, tier, seed, res, jobs):
+    """Coverage-guided stage (libFuzzer, clang): the target carries the same monitors as the harness; an oracle
+    disagreement aborts with a VH-VIOLATION line. Bounded by -runs, seeded by VERIF_SEED."""
+    fz = spec.get("fuzz")
+    if not fz:
+        return None
+    runs = fz["runs"][tier]
+    if runs <= 0:
+        return None
+    fdir = os.path.join(workdir, "fuzz")
+    exe = build_fuzz(fz, fdir)
+    env = dict(os.environ)
+    env.update(SAN_ENV)
+    return run_fuzz(fz, fdir, exe, env, runs, seed, res, jobs, workdir)
+
+
+def build_fuzz(fz, fdir):
+    shutil.rmtree(fdir, ignore_errors=True)
+    os.makedirs(fdir)
+    geninc = gen_toolchain_h(fdir)
+    inc = ["-I" + os.path.join(REPO, "include"), "-I" + geninc, "-I" + os.path.join(VERIF, "harness")]
+    defs = COMMON_DEFS + ["-DUFW_USE_BUILTIN_SWAP", "-DVH_FUZZ"]
+    srcs = [os.path.join(REPO, x) for x in LIB_SOURCES] + [os.path.join(VERIF, "harness", fz["target"]),
+                                                         os.path.join(VERIF, "harness/common/vh.c")]
+    cmds, objs = [], []
+    for i, src in enumerate(srcs):
+        o = os.path.join(fdir, "%02d.o" % i)
+        objs.append(o)
+        cmds.append(["clang"] + WARN + FUZZ_FLAGS + defs + inc + ["-c", src, "-o", o])
+    with ThreadPoolExecutor(max_workers=JOBS) as ex:
+        rs = list(ex.map(run, cmds))
+    for c, r in zip(cmds, rs):
+        if r.returncode != 0:
+            raise Inconclusive("fuzz target compile failed: %s\n%s" % (" ".join(c), r.stdout[-2000:]))
+    exe = os.path.join(fdir, "fz")
+    r = run(["clang"] + FUZZ_FLAGS + objs + ["-o", exe, "-lm"])
+    if r.returncode != 0:
+        raise Inconclusive("fuzz target link failed:\n" + r.stdout[-2000:])
+    return exe
+
+
+def run_fuzz(fz, fdir, exe, env, runs, seed, res, jobs, workdir):
+    seeddir = os.path.join(fdir, "seeds")
+    os.makedirs(seeddir)
+    env2 = dict(env)
+    env2["FZ_GEN_CORPUS"] = seeddir
+    run([exe], env=env2)
+    nseeds = len(os.listdir(seeddir))
+    procs = []
+    t0 = time.time()
+    per = max(1, runs // jobs)
+    for j in range(jobs):
+        cdir = os.path.join(fdir, "corpus%d" % j)
+        shutil.copytree(seeddir, cdir)
+        adir = os.path.join(fdir, "art%d" % j)
+        os.makedirs(adir)
+        log = open(os.path.join(fdir, "log%d" % j), "w")
+        cmd = [exe, "-runs=%d" % per, "-seed=%d" % (seed * 1000 + j + 1), "-max_len=%d" % fz.get("max_len", 600),
+               "-artifact_prefix=" + adir + "/", "-print_final_stats=1", "-timeout=60", cdir]
+        procs.append((subprocess.Popen(cmd, stdout=log, stderr=subprocess.STDOUT, env=env), log, j))
+    execs = cov = ft = 0
+    crashes = []
+    for p, log, j in procs:
+        p.wait()
+        log.close()
+        txt = open(os.path.join(fdir, "log%d" % j), errors="replace").read()
+        m = re.findall(r"stat::number_of_executed_units:\s*(\d+)", txt)
+        if m:
+            execs += int(m[-1])
+        m = re.findall(r"cov: (\d+) ft: (\d+)", txt)
+        if m:
+            cov = max(cov, int(m[-1][0]))
+            ft = max(ft, int(m[-1][1]))
+        for a in sorted(os.listdir(os.path.join(fdir, "art%d" % j))):
+            crashes.append((os.path.join(fdir, "art%d" % j, a), txt))
+    for path, txt in crashes[:20]:
+        rec = {"check": "fuzz", "gen": os.path.basename(fz["target"])}
+        m = re.search(r"VH-VIOLATION check=(\S+) key=(.*?) msg=(.*)", txt)
+        if m:
+            rec["oracle"] = m.group(1)
+            rec.update(key_fields(m.group(2)))
+            msg = m.group(3)[:400]
+        else:
+            fields, _ = triage_text(txt)
+            rec.update(fields)
+            msg = ""
+        if os.path.basename(path).startswith("timeout"):
+            rec["signal"] = "TIMEOUT"
+        k = ("fuzz", " ".join("%s=%s" % kv for kv in sorted(rec.items()) if kv[0] != "check"))
+        d = res.viols.setdefault(k, {"count": 0, "first": None})
+        d["count"] += 1
+        if d["first"] is None:
+            keep = os.path.join(workdir, "replay", "fuzz-" + os.path.basename(path))
+            os.makedirs(os.path.dirname(keep), exist_ok=True)
+            shutil.copy(path, keep)
+            d["first"] = {"config": "fuzz", "unit": None, "artifact": keep, "msg": msg + " (libFuzzer artifact %s)" % keep}
+    res.cases += execs
+    return {"target": fz["target"], "executions": execs, "jobs": jobs, "seed_corpus_files": nseeds,
+            "final_coverage_edges": cov, "final_features": ft, "crash_artifacts": len(crashes),
+            "wall_s": round(time.time() - t0, 1)}
+
+
+def triage_text(txt):
+    import tempfile
+    with tempfile.NamedTemporaryFile("w", suffix=".err", delete=False) as f:
+        f.write(txt)
+        name = f.name
+    try:
+        return triage_errfile(name)
+    finally:
+        os.unlink(name)
 
 
 def gcov_reach(spec, workdir, seed, jobs):
@@ -558,6 +679,8 @@ def write_evidence(spec, tier, seed, res, per_config, wall, nviol, inconclusive=
         cov["exhaustive_scope"] = spec["exhaustive"][tier]
     for k, v in spec.get("extra_coverage", {}).items():
         cov[k] = v
+    if spec.get("_fuzz"):
+        cov["coverage_guided_stage"] = spec["_fuzz"]
     if spec.get("_reach"):
         cov["reach_of_anchored_files"] = spec["_reach"]
     if inconclusive:
@@ -586,6 +709,22 @@ def do_replay(spec, path, workdir):
     with open(path) as f:
         rp = json.load(f)
     cfgname = rp.get("config") or spec["configs"]["quick"][0]
+    art = (rp.get("witness") or {}).get("artifact")
+    if cfgname == "fuzz" and art:
+        try:
+            exe = build_fuzz(spec["fuzz"], os.path.join(workdir, "fuzz"))
+        except Inconclusive as e:
+            print("INCONCLUSIVE %s" % e)
+            return 2
+        env = dict(os.environ)
+        env.update(SAN_ENV)
+        r = subprocess.run([exe, art], env=env, stdout=subprocess.PIPE, stderr=subprocess.STDOUT, text=True, errors="replace")
+        print(r.stdout[-3500:])
+        reproduced = r.returncode != 0
+        print("replay: %s (libFuzzer target on %s, exit status %s)" % ("REPRODUCED" if reproduced else "not reproduced", art, r.returncode))
+        if reproduced:
+            print("VIOLATION property=%s replay=%s" % (spec["id"], path))
+        return 1 if reproduced else 0
     try:
         exe = build(workdir, cfgname, spec["sources"], spec.get("extra_flags", ()))
     except Inconclusive as e:
